@@ -186,12 +186,13 @@ class Valuation:
         return fingerprint(ordinal, width, typ)
 
 
-def layout(identity: str, val: Valuation, pdict=None):
+def layout(identity: str, val: Valuation, pdict=None, fields=None):
     """
     Walk the definition of ``identity`` -> list[Occ] (incl. zero-width derived
     label fields with role 'derived'), total bits.
     """
-    fields, *_ = tables()
+    if fields is None:
+        fields, *_ = tables()
     if pdict is None:
         pdict = definition(identity)
     if pdict is None:
